@@ -112,7 +112,7 @@ fn pos_id(d: &JapaneseDictionary, p: &[&str]) -> u16 {
 }
 
 fn coq_node(n: &Node) -> String {
-    format!("mkN {} {} {} {} {} {} {} {} {} {}", n.bc, n.ec, ctext(&n.surf), ctext(&n.norm), ctext(&n.dform), ctext(&n.rform), cn(n.pos), cbool(n.oov), cn(n.cats), cn(n.cat0))
+    format!("mkN {} {} {} {} {} {} {} {} {} {} {} {}", n.bc, n.ec, n.b, n.b + n.text.len(), ctext(&n.surf), ctext(&n.norm), ctext(&n.dform), ctext(&n.rform), cn(n.pos), cbool(n.oov), cn(n.cats), cn(n.cat0))
 }
 
 fn coq_plug(v: &Variant, p: &Plug) -> String {
@@ -136,6 +136,15 @@ fn grouping_oracle(v: &Variant, text: &str, inp: &[Node], out: &[Node]) -> Optio
             Plug::Katakana { pos, .. } => allowed.push(v.oov_pos[*pos]),
         }
     }
+    // what every morpheme REPORTS must be the text it covers (surface() slices by the node's byte range,
+    // begin()/end() come from its code-point range): both views have to agree, merged or not
+    for m in out.iter().chain(inp.iter()) {
+        if text.get(m.b..m.e) != Some(m.text.as_str()) {
+            return Some(format!("token at bytes {}..{} reports surface {:?} but covers {:?}", m.b, m.e, m.text, text.get(m.b..m.e)));
+        }
+    }
+    let kat_bit = 128u32; // CategoryType::KATAKANA (cats are only filled for the variants without input-text plugin)
+    let kat_pos: Option<u16> = v.plugs.iter().find_map(|p| match p { Plug::Katakana { pos, .. } => Some(v.oov_pos[*pos]), _ => None });
     let mut k = 0;
     for m in out {
         let start = k;
@@ -165,8 +174,28 @@ fn grouping_oracle(v: &Variant, text: &str, inp: &[Node], out: &[Node]) -> Optio
             if m.bc != g[0].bc || m.ec != g[g.len() - 1].ec {
                 return Some(format!("merged token {:?}: code-point range {}..{} is not the union of the merged ranges", m.text, m.bc, m.ec));
             }
+            let t: String = g.iter().map(|n| n.text.as_str()).collect();
+            if t != m.text || m.b != g[0].b || m.e != g[g.len() - 1].e {
+                return Some(format!("merged token at bytes {}..{} reports surface {:?}; the merged tokens cover {}..{} = {:?}", m.b, m.e, m.text, g[0].b, g[g.len() - 1].e, t));
+            }
             if !allowed.contains(&m.pos) {
                 return Some(format!("merged token {:?}: part of speech id {} is not one the plugins prescribe {:?}", m.text, m.pos, allowed));
+            }
+            if !v.input_plugin {
+                // which plugin can have made this merge: the katakana plugin only merges nodes whose characters are all katakana,
+                // the numeral plugin never does
+                let by_katakana = g.iter().all(|n| n.cats & kat_bit == kat_bit);
+                let (want_pos, want_oov, who) = if by_katakana {
+                    (kat_pos.unwrap_or(u16::MAX), g.iter().any(|n| n.oov), "JoinKatakanaOov: configured oovPOS, OOV iff a part is OOV")
+                } else {
+                    (v.num_pos, true, "JoinNumeric: 名詞,数詞, word id INVALID (reported as OOV)")
+                };
+                if m.pos != want_pos {
+                    return Some(format!("merged token {:?} (parts {:?}) carries part of speech id {}, prescribed is {} [{}]", m.text, g.iter().map(|n| (n.text.clone(), n.pos)).collect::<Vec<_>>(), m.pos, want_pos, who));
+                }
+                if m.oov != want_oov {
+                    return Some(format!("merged token {:?}: is_oov() = {}, word id rule gives {} [{}]", m.text, m.oov, want_oov, who));
+                }
             }
         }
     }
@@ -229,8 +258,57 @@ fn run_case(sink: &mut Sink, v: &Variant, text: &str, tag: &str, verbose: bool) 
     }
 }
 
+/// second lexicon: some numeral characters are NOT numerals (4, 四, 9 are common nouns, 億 too), the separators
+/// "," and "." have no entry (OOV tokens inside numeral runs, head_word_length 0), katakana words with other parts of speech.
+/// Rows are rewritten in place so that the word ids other rows refer to stay valid.
+const ALT_ROWS: &str = "\
+十,9,9,2478,十,名詞,数詞,*,*,*,*,ジュウ,十,*,A,*,*,*,*
+百,9,9,2478,百,名詞,数詞,*,*,*,*,ヒャク,百,*,A,*,*,*,*
+千,9,9,2478,千,名詞,数詞,*,*,*,*,セン,千,*,A,*,*,*,*
+万,9,9,2478,万,名詞,数詞,*,*,*,*,マン,万,*,A,*,*,*,*
+億,7,7,2478,億,名詞,普通名詞,一般,*,*,*,オク,億,*,A,*,*,*,*
+円,8,8,3000,円,名詞,普通名詞,助数詞可能,*,*,*,エン,円,*,A,*,*,*,*
+コーヒー,7,7,4000,コーヒー,名詞,普通名詞,一般,*,*,*,コーヒー,コーヒー,*,A,*,*,*,*
+カップ,6,6,4000,カップ,名詞,固有名詞,地名,一般,*,*,カップ,カップ,*,A,*,*,*,*
+テスト,4,4,4000,テスト,動詞,非自立可能,*,*,五段-カ行,終止形-一般,テスト,テスト,*,A,*,*,*,*
+メ,3,3,4000,メ,助詞,格助詞,*,*,*,*,メ,メ,*,A,*,*,*,*
+";
+
+fn compile_alt() -> Vec<u8> {
+    use sudachi::dic::build::DictBuilder;
+    let lex = String::from_utf8(crate::c15::read_repo("sudachi/tests/resources/lex.csv")).unwrap();
+    let mut out = String::new();
+    let mut changed = 0;
+    for line in lex.lines() {
+        let head = line.split(',').next().unwrap_or("");
+        if ["4", "四", "9"].contains(&head) && line.contains(",名詞,数詞,*,*,*,*,") {
+            out.push_str(&line.replace(",名詞,数詞,*,*,*,*,", ",名詞,普通名詞,一般,*,*,*,"));
+            changed += 1;
+        } else {
+            out.push_str(line);
+        }
+        out.push('\n');
+    }
+    assert_eq!(changed, 3, "rows of 4 / 四 / 9 found in tests/resources/lex.csv");
+    out.push_str(ALT_ROWS);
+    let conn = crate::c15::read_repo("sudachi/tests/resources/matrix_10x10.def");
+    let mut b = DictBuilder::new_system();
+    b.read_conn(&conn[..]).expect("matrix");
+    b.read_lexicon(out.as_bytes()).expect("lexicon");
+    b.resolve().expect("resolve");
+    let mut bytes = Vec::new();
+    b.compile(&mut bytes).expect("compile");
+    bytes
+}
+
 fn variants(work: &std::path::Path) -> Vec<Variant> {
-    let dic = compile_system(EXTRA_ROWS);
+    let mut vs = variants_of(work, "", &compile_system(EXTRA_ROWS), true);
+    vs.extend(variants_of(work, "alt-", &compile_alt(), false));
+    vs
+}
+
+fn variants_of(work: &std::path::Path, prefix: &str, dic: &[u8], all_chains: bool) -> Vec<Variant> {
+    let dic = dic.to_vec();
     let chains: Vec<(&str, Vec<Plug>)> = vec![
         ("num+kat3", vec![Plug::Numeric { normalize: true }, Plug::Katakana { min_length: 3, pos: 0 }]),
         ("numraw+kat1", vec![Plug::Numeric { normalize: false }, Plug::Katakana { min_length: 1, pos: 0 }]),
@@ -245,6 +323,9 @@ fn variants(work: &std::path::Path) -> Vec<Variant> {
     for (cd_name, cd) in [("res", "resources/char.def"), ("test", "sudachi/tests/resources/char.def")] {
         let res = resource_dir(work, &format!("res_c14_{}", cd_name), cd);
         for (name, plugs) in &chains {
+            if !all_chains && ["num+kat0", "kat9"].contains(name) {
+                continue;
+            }
             for input_plugin in [false, true] {
                 if input_plugin && !(*name == "num+kat3" || *name == "numraw+kat1") {
                     continue;
@@ -257,7 +338,7 @@ fn variants(work: &std::path::Path) -> Vec<Variant> {
                 };
                 let num_pos = pos_id(&base, &NUM_POS);
                 let oov_pos = OOV_POS.iter().map(|p| pos_id(&base, p)).collect();
-                vs.push(Variant { name: format!("{}/{}{}", cd_name, name, if input_plugin { "/nfkc" } else { "" }), plugs: plugs.clone(), base, with, num_pos, oov_pos, input_plugin });
+                vs.push(Variant { name: format!("{}{}/{}{}", prefix, cd_name, name, if input_plugin { "/nfkc" } else { "" }), plugs: plugs.clone(), base, with, num_pos, oov_pos, input_plugin });
             }
         }
     }
@@ -281,7 +362,7 @@ fn load_dict_plain(dic: &[u8], res: &std::path::Path, path_rewrite: Value) -> Ja
 }
 
 const PIECES_KATA: [&str; 16] = ["アイ", "アイウ", "コーヒー", "カップ", "アイアイウ", "ラ", "ラーメン", "ァ", "ァイ", "ー", "メ", "ヴ", "ン", "テスト", "ア", "イウ"];
-const PIECES_NUM: [&str; 22] = ["0", "1", "2", "5", "9", "〇", "一", "二", "三", "九", "十", "百", "千", "万", "億", "兆", ",", ".", "12", "1,000", "六三四", "3.14"];
+const PIECES_NUM: [&str; 28] = ["0", "1", "2", "5", "9", "〇", "一", "二", "三", "九", "十", "百", "千", "万", "億", "兆", ",", ".", "12", "1,000", "六三四", "3.14", "4", "四", "42", "49", "1.5", "四十"];
 const PIECES_OTHER: [&str; 16] = ["に", "た", "京都", "東京都", "行っ", "a", "xyz", " ", "円", "。", "特a", "-", "東", "いく", "な。な", "X"];
 
 fn gen_text(rng: &mut Rng, nfkc: bool) -> (String, &'static str) {
@@ -321,7 +402,8 @@ fn gen_text(rng: &mut Rng, nfkc: bool) -> (String, &'static str) {
     (s, tag)
 }
 
-const DIRECTED: [&str; 24] = [
+const DIRECTED: [&str; 36] = [
+    "42円", "4.5", "1.5", "1,000円", "四十二", "9万", "49", "3.14京都", "テストメアイ", "1.5テスト", "4億", "2.50,",
     "123円20銭", "080-121", "一二三万二千円", "二百百", "1,000,000円", ",123,", "1.", ".5.", "1,2,3", "アイアイウ", "アイウアイ", "ァイアイ", "ラーメンアイウ",
     "コーヒーカップ", "アイ1アイ", "1アイウ2", "カップ3.50ー", "六三四アイ", "ァァァ", "1,", "に,1", "1.2.3", "京都に123,456.70円アイウラ", "",
 ];
@@ -329,7 +411,7 @@ const DIRECTED: [&str; 24] = [
 pub fn run(args: &Args) {
     let mut sink = Sink::new("C14", &args.out, &["Model.Rewrite"], args.seed, &args.tier);
     sink.shard_size = 60;
-    sink.rule("the same text analysed with one dictionary (tests/resources/lex.csv + numeral units, separators, katakana words; resources/char.def or tests/resources/char.def) without path-rewrite plugins and with a plugin chain (JoinNumeric enableNormalize true/false, JoinKatakanaOov minLength 0/1/2/3/5/9, three OOV parts of speech, both orders, each alone); texts are concatenations of katakana dictionary words / katakana OOV pieces (incl. NOOOVBOW ァ) / digits, kanji digits, units, separators, well-formed and malformed numerals / other words, directed sequences first (separators at text edges, numerals next to katakana runs); Coq model of both loops run on the plugin-free path must equal the result with plugins and grouping_ok must hold on it; a Rust oracle re-checks boundary subset, union range, concatenated surface, prescribed part of speech, unchanged rest; non-trivial = at least one merge; extra stream with the NFKC input-text plugin (oracle only)");
+    sink.rule("the same text analysed with one dictionary (tests/resources/lex.csv + numeral units, separators, katakana words; resources/char.def or tests/resources/char.def) without path-rewrite plugins and with a plugin chain; a second lexicon makes 4 / 四 / 9 / 億 common nouns, leaves ',' and '.' out (OOV separators inside numeral runs) and gives katakana words other parts of speech; every morpheme's reported surface()/begin()/end() must be the covered text, a merged one the union / concatenation of its parts, with the part of speech and OOV flag of the plugin that can have made the merge (JoinNumeric enableNormalize true/false, JoinKatakanaOov minLength 0/1/2/3/5/9, three OOV parts of speech, both orders, each alone); texts are concatenations of katakana dictionary words / katakana OOV pieces (incl. NOOOVBOW ァ) / digits, kanji digits, units, separators, well-formed and malformed numerals / other words, directed sequences first (separators at text edges, numerals next to katakana runs); Coq model of both loops run on the plugin-free path must equal the result with plugins and grouping_ok must hold on it; a Rust oracle re-checks boundary subset, union range, concatenated surface, prescribed part of speech, unchanged rest; non-trivial = at least one merge; extra stream with the NFKC input-text plugin (oracle only)");
     let vs = variants(&args.work);
     if let Some(p) = &args.replay {
         let r: Value = serde_json::from_str(&std::fs::read_to_string(p).unwrap()).unwrap();
@@ -343,14 +425,14 @@ pub fn run(args: &Args) {
     let mut rng = Rng::new(args.seed);
     for t in DIRECTED.iter() {
         for v in vs.iter().filter(|v| !v.input_plugin) {
-            if v.name.ends_with("num+kat3") || v.name.ends_with("numraw+kat1") || v.name.ends_with("kat2") {
+            if v.name.ends_with("num+kat3") || v.name.ends_with("numraw+kat1") || v.name.ends_with("kat2") || v.name.ends_with("numraw") {
                 run_case(&mut sink, v, t, "text:directed", false);
             }
         }
     }
     let plain: Vec<&Variant> = vs.iter().filter(|v| !v.input_plugin).collect();
     let nfkc: Vec<&Variant> = vs.iter().filter(|v| v.input_plugin).collect();
-    for _ in 0..args.n(900, 20000) {
+    for _ in 0..args.n(800, 20000) {
         let (t, tag) = gen_text(&mut rng, false);
         let v = *rng.pick(&plain);
         run_case(&mut sink, v, &t, tag, false);
